@@ -30,7 +30,7 @@ func init() {
 		Floors: []string{"merges_checked", "inputs_0", "inputs_1", "inputs_2", "inputs_many", "consume_rows", "consume_row_readers", "consume_copy_rows", "consume_write_rowgroup", "nullable_key_merges", "null_keys_in_inputs", "desc_key_merges", "two_column_keys",
 			"dedup_merges", "overlap_disjoint", "overlap_touching", "overlap_nested", "overlap_identical", "large_inputs_refinement", "inputs_without_page_index", "buffer_inputs", "duplicate_keys_across_inputs", "row_readers_recycling_sources"},
 		Rule: "case = (k in {0,1,2,3,5,8,17} inputs, each a file row group (small pages, with or without page index) or a sorted buffer, sorted by 1-2 key columns with every direction x null placement; key ranges disjoint / touching / nested / identical, duplicates within and across inputs; " +
-			"input sizes around 24, 192, 1024 and 5000 rows so that range refinement and run mode engage; consumed through MergeRowGroups().Rows() with batch sizes {1,2,3,24,64,1000}, MergeRowReaders, CopyRows and Writer.WriteRowGroup then read back; optional duplicate dropping). " +
+			"input sizes around 24, 192, 1024 and 5000 rows so that range refinement and run mode engage; consumed through MergeRowGroups().Rows() with batch sizes {1,2,3,24,64,1000}, MergeRowReaders (also over sources that overwrite their value memory at the next ReadRows call), CopyRows and Writer.WriteRowGroup then read back; optional duplicate dropping). " +
 			"Every row carries (source, sequence): the oracle checks sortedness with an independent comparator, multiset equality with the union of inputs, per-source order, and for dedup one surviving input row per key. Distinct = descriptor hash",
 		Assumptions: []string{"inputs are sorted by the independent comparator before being handed to the library (sort keys never hold NaN)", "ties across inputs may come out in any order; ties within one input keep their order"},
 		Run:         runC09,
